@@ -10,9 +10,9 @@
     [codec_ok E]: dec (enc x) = Some x and reser idempotent; [rel_sem]: id, type, mode and
     resolved target (or external text) of a relationship. *)
 From V.lib Require Import Prelude.
-From V.model Require Import PackUri Opc OpcRun.
+From V.model Require Import PackUri Opc OpcRun OpcCodec.
 From V.gen Require Import GenC01.
-From V.proofs Require Import Opc_proofs.
+From V.proofs Require Import Opc_proofs OpcCodec_proofs.
 From Coq Require Import Permutation.
 
 (** the translator understood every source construct it read *)
@@ -119,3 +119,176 @@ Example C01_ex_clash_regression :
   | Err _ => False
   end.
 Proof. exact ex_clash_regression. Qed.
+
+
+(** ---- the codec hypothesis discharged for a concrete codec ----
+    model/OpcCodec.v: [enc_rels_c] / [enc_ct_c] the text lxml writes for a rels item / the
+    content types item (tied byte for byte by the codec phase of checks/c01.py),
+    [dec_rels_c] / [dec_ct_c] a reader of that document shape built on the attribute-value
+    lexer of C05; [xml_rels l]: every id, type and target is a string of XML characters and no
+    mode is MOther; [xml_cts c] likewise; [cenv] the env made of these four functions;
+    [codec_rt_on P Q E]: dec (enc x) = Some x for x in P resp. Q; [codec_ok_on]: that and
+    reser idempotent; [xml_package E p]: reachable names, relationship fields and content
+    types of [p] and the initial defaults of [E] are XML strings; [writes_ok P Q E k]: all
+    that save hands to the encoders for [k] lies in P resp. Q. *)
+
+(** the reader gives back every writable list of relationships: no bound on the number of
+    relationships or the length of the strings *)
+Theorem C01_codec_rels : forall l, xml_rels l = true -> dec_rels_c (enc_rels_c l) = Some l.
+Proof. exact dec_enc_rels. Qed.
+Print Assumptions C01_codec_rels.
+
+Theorem C01_codec_ct : forall c, xml_cts c = true -> dec_ct_c (enc_ct_c c) = Some c.
+Proof. exact dec_enc_ct. Qed.
+Print Assumptions C01_codec_ct.
+
+(** the env built from the concrete codec meets the first two conjuncts of codec_ok on
+    such inputs, whatever the payload re-serialiser and the tables are *)
+Theorem C01_codec_env : forall rs dt xc idf pc od,
+  codec_rt_on xml_rels xml_cts (cenv rs dt xc idf pc od).
+Proof. exact cenv_codec_rt_on. Qed.
+Print Assumptions C01_codec_env.
+
+(** codec_ok as stated (every list) cannot hold of a reader of XML, nor of this writer *)
+Theorem C01_codec_ok_too_strong : forall E : env str,
+  (forall b l, dec_rels E b = Some l -> forallb (fun r => Escape.xml_str (r_id r)) l = true) ->
+  ~ codec_ok E.
+Proof. exact codec_ok_too_strong. Qed.
+Print Assumptions C01_codec_ok_too_strong.
+
+Theorem C01_codec_ok_refuted : forall rs dt xc idf pc od, ~ codec_ok (cenv rs dt xc idf pc od).
+Proof. exact cenv_not_codec_ok. Qed.
+Print Assumptions C01_codec_ok_refuted.
+
+(** whatever the concrete reader accepts, it returns XML strings *)
+Theorem C01_codec_reads_xml : forall s,
+  (forall l, dec_rels_c s = Some l -> forallb xml_fields l = true) /\
+  (forall c, dec_ct_c s = Some c -> xml_cts c = true).
+Proof. intros s. split; [exact (dec_rels_c_xml s)|exact (dec_ct_c_xml s)]. Qed.
+Print Assumptions C01_codec_reads_xml.
+
+(** C01_rels / C01_payload_type / C01_idem under the restricted hypothesis, any env *)
+Theorem C01_rels_on : forall blob (E : env blob) P Q (p : phys blob),
+  wf E p -> codec_rt_on P Q E -> (forall k, load E p = Ok k -> writes_ok P Q E k) ->
+  exists k, load E p = Ok k /\
+    forall src, reachable E p src ->
+      exists rs rs', rels_for E p src = Some rs /\ rels_for E (save E k) src = Some rs' /\
+                     Permutation (map (rel_sem src) rs) (map (rel_sem src) rs').
+Proof. exact @c01_rels_on. Qed.
+Print Assumptions C01_rels_on.
+
+Theorem C01_payload_type_on : forall blob (E : env blob) P Q (p : phys blob),
+  wf E p -> codec_rt_on P Q E -> env_ok E -> (forall k, load E p = Ok k -> writes_ok P Q E k) ->
+  exists k, load E p = Ok k /\
+    forall q ct b, reachable E p q -> q <> root -> ct_in E p q = Ok ct -> lookup q p = Some b ->
+      ct_in E (save E k) q = Ok ct /\
+      lookup q (save E k) = (if is_xml_ct E ct then reser E b else Some b).
+Proof. exact @c01_payload_type_on. Qed.
+Print Assumptions C01_payload_type_on.
+
+Theorem C01_idem_on : forall blob (E : env blob) P Q (p : phys blob),
+  wf E p -> codec_ok_on P Q E -> env_ok E -> (forall k, load E p = Ok k -> writes_ok P Q E k) ->
+  exists k k2, load E p = Ok k /\ load E (save E k) = Ok k2 /\
+               same_package (save E k2) (save E k).
+Proof. exact @c01_idem_on. Qed.
+Print Assumptions C01_idem_on.
+
+(** a package of XML strings hands only XML strings to the encoders *)
+Theorem C01_xml_package_writes : forall blob (E : env blob) (p : phys blob),
+  wf E p -> xml_package E p -> forall k, load E p = Ok k -> writes_ok xml_rels xml_cts E k.
+Proof. exact @xml_package_writes_ok. Qed.
+Print Assumptions C01_xml_package_writes.
+
+Theorem C01_rels_xml : forall blob (E : env blob) (p : phys blob),
+  wf E p -> codec_rt_on xml_rels xml_cts E -> xml_package E p ->
+  exists k, load E p = Ok k /\
+    forall src, reachable E p src ->
+      exists rs rs', rels_for E p src = Some rs /\ rels_for E (save E k) src = Some rs' /\
+                     Permutation (map (rel_sem src) rs) (map (rel_sem src) rs').
+Proof. exact @c01_rels_xml. Qed.
+Print Assumptions C01_rels_xml.
+
+Theorem C01_payload_type_xml : forall blob (E : env blob) (p : phys blob),
+  wf E p -> codec_rt_on xml_rels xml_cts E -> env_ok E -> xml_package E p ->
+  exists k, load E p = Ok k /\
+    forall q ct b, reachable E p q -> q <> root -> ct_in E p q = Ok ct -> lookup q p = Some b ->
+      ct_in E (save E k) q = Ok ct /\
+      lookup q (save E k) = (if is_xml_ct E ct then reser E b else Some b).
+Proof. exact @c01_payload_type_xml. Qed.
+Print Assumptions C01_payload_type_xml.
+
+Theorem C01_idem_xml : forall blob (E : env blob) (p : phys blob),
+  wf E p -> codec_ok_on xml_rels xml_cts E -> env_ok E -> xml_package E p ->
+  exists k k2, load E p = Ok k /\ load E (save E k) = Ok k2 /\
+               same_package (save E k2) (save E k).
+Proof. exact @c01_idem_xml. Qed.
+Print Assumptions C01_idem_xml.
+
+(** the concrete codec: relationships are preserved with nothing assumed of lxml; what the
+    items contain needs no hypothesis (the reader only returns XML strings), only the
+    reachable names and the initial defaults of the env must be XML strings *)
+Theorem C01_rels_concrete : forall rs dt xc idf pc od (p : phys str),
+  let E := cenv rs dt xc idf pc od in
+  wf E p -> (forall x, reachable E p x -> Escape.xml_str x = true) ->
+  (forall kv, In kv idf -> xml_pair kv = true) ->
+  exists k, load E p = Ok k /\
+    forall src, reachable E p src ->
+      exists l l', rels_for E p src = Some l /\ rels_for E (save E k) src = Some l' /\
+                   Permutation (map (rel_sem src) l) (map (rel_sem src) l').
+Proof. exact c01_rels_concrete_names. Qed.
+Print Assumptions C01_rels_concrete.
+
+Theorem C01_payload_type_concrete : forall rs dt xc idf pc od (p : phys str),
+  let E := cenv rs dt xc idf pc od in
+  wf E p -> env_ok E -> (forall x, reachable E p x -> Escape.xml_str x = true) ->
+  (forall kv, In kv idf -> xml_pair kv = true) ->
+  exists k, load E p = Ok k /\
+    forall q ct b, reachable E p q -> q <> root -> ct_in E p q = Ok ct -> lookup q p = Some b ->
+      ct_in E (save E k) q = Ok ct /\
+      lookup q (save E k) = (if is_xml_ct E ct then reser E b else Some b).
+Proof. exact c01_payload_type_concrete_names. Qed.
+Print Assumptions C01_payload_type_concrete.
+
+(** the second save: what is left assumed of lxml is that re-serialising a payload it has
+    serialised changes nothing *)
+Theorem C01_idem_concrete : forall rs dt xc idf pc od (p : phys str),
+  (forall b b', rs b = Some b' -> rs b' = Some b') ->
+  let E := cenv rs dt xc idf pc od in
+  wf E p -> env_ok E -> (forall x, reachable E p x -> Escape.xml_str x = true) ->
+  (forall kv, In kv idf -> xml_pair kv = true) ->
+  exists k k2, load E p = Ok k /\ load E (save E k) = Ok k2 /\
+               same_package (save E k2) (save E k).
+Proof. exact c01_idem_concrete_names. Qed.
+Print Assumptions C01_idem_concrete.
+
+(** non-vacuity: the example deck with its rels items and content types item as real text
+    (tenv: the concrete codec, identity re-serialiser, the tables of gen/GenC01.v) *)
+Example C01_ex_codec_wf : wf tenv ex_deck_text.
+Proof. exact ex_deck_text_wf. Qed.
+Example C01_ex_codec_xml_package : xml_package tenv ex_deck_text.
+Proof. exact ex_deck_text_xml. Qed.
+Example C01_ex_codec_names :
+  (forall x, reachable tenv ex_deck_text x -> Escape.xml_str x = true) /\
+  (forall kv, In kv gen_init_defaults -> xml_pair kv = true).
+Proof. exact ex_deck_text_names. Qed.
+Example C01_ex_codec_ok_on : codec_ok_on xml_rels xml_cts tenv.
+Proof. exact tenv_codec_ok_on. Qed.
+Example C01_ex_codec_env_ok : env_ok tenv.
+Proof. exact tenv_env_ok. Qed.
+Example C01_ex_codec_saved :
+  match load tenv ex_deck_text with
+  | Ok k => length (save tenv k) = 7%nat
+            /\ match lookup (rels_item_name root) (save tenv k) with
+               | Some t => t = enc_rels_c [mkRel [114; 73; 100; 49]%N gen_rt_office_document
+                                                [112; 112; 116; 47; 112; 114; 101; 115; 101; 110; 116; 97; 116; 105; 111; 110; 46; 120; 109; 108]%N MInt]
+               | None => False
+               end
+  | Err _ => False
+  end.
+Proof. exact ex_deck_text_saved. Qed.
+(* a list with every escaped character, a non-ASCII and a beyond-BMP character, an empty
+   id, both modes; a table likewise *)
+Example C01_ex_codec_rels : xml_rels ex_rels = true /\ dec_rels_c (enc_rels_c ex_rels) = Some ex_rels.
+Proof. exact ex_rels_ok. Qed.
+Example C01_ex_codec_cts : xml_cts ex_cts = true /\ dec_ct_c (enc_ct_c ex_cts) = Some ex_cts.
+Proof. exact ex_cts_ok. Qed.
